@@ -8,8 +8,9 @@ Representation choices (see DESIGN.md A.9):
   in `Lemmas/Lock.lean`); lookups are by key so the insertion order is irrelevant;
 * a reply channel is a natural number; the environment's set of closed receivers is `dead`;
   `reply.send(room).is_ok()` is `!dead.contains ch`;
-* the two `for _ in 0..len` loops are fuel loops whose fuel is the length read at loop entry,
-  exactly as the Rust code evaluates the range once.
+* the inner `for _ in 0..len` loop is a fuel loop whose fuel is the length read at loop entry,
+  exactly as the Rust code evaluates the range once; the outer one is a recursion over the queue
+  (see `scan`).
 This file is import-free (core Lean only) so that the driver can be compiled.
 -/
 namespace Discret.Lock
@@ -52,35 +53,30 @@ def roomLoop (locked : List Room) (live : Bool) : Nat → List Room → List Roo
     else if live then (rest, some r)
     else roomLoop locked live fuel rest
 
-/-- One iteration of the outer loop of `acquire_lock` for the popped peer `p` (queue rest `q`)
-    whose request `req` has just been removed from the map. -/
-def peerBody (s : State) (p : Peer) (q : List Peer) (req : Req) : State × Option (Ch × Room) :=
-  let reqs' := erase p s.reqs
-  let res := roomLoop s.locked (!s.dead.contains req.ch) req.rooms.length req.rooms
-  let rooms' := res.1
-  let reqs'' := if rooms'.isEmpty then reqs' else (p, { req with rooms := rooms' }) :: reqs'
-  let q' := if rooms'.isEmpty then q else q ++ [p]
-  match res.2 with
-  | some r =>
-    ({ s with reqs := reqs'', queue := q', locked := r :: s.locked, avail := s.avail - 1 },
-      some (req.ch, r))
-  | none => ({ s with reqs := reqs'', queue := q' }, none)
+/-- The outer loop of `acquire_lock` (code as fixed by `fix: a waiting peer keeps its place in the
+    lock queue`). `for _ in 0..peer_queue.len() { pop_back … }`: until a grant, the loop only pops
+    (a peer that cannot be served goes to the local `skipped` vector, not back to the queue), so it
+    visits the peers of the queue exactly once, back first: a structural recursion over the queue.
+    `sk` is `skipped` (in visiting order). After the loop the skipped peers are pushed back in
+    reverse order, i.e. they return to the back of the queue in their original order; the peer that
+    was served goes to the FRONT (end of the list) if it still waits for rooms. -/
+def scan (s : State) : List Peer → List Peer → State × Option (Ch × Room)
+  | [], sk => ({ s with queue := sk }, none)
+  | p :: q, sk =>
+    match lookup p s.reqs with
+    | none => scan s q sk
+    | some req =>
+      let res := roomLoop s.locked (!s.dead.contains req.ch) req.rooms.length req.rooms
+      let reqs' :=
+        if res.1.isEmpty then erase p s.reqs else (p, { req with rooms := res.1 }) :: erase p s.reqs
+      match res.2 with
+      | some r =>
+        ({ s with reqs := reqs', queue := sk ++ (if res.1.isEmpty then q else q ++ [p]),
+                  locked := r :: s.locked, avail := s.avail - 1 },
+          some (req.ch, r))
+      | none => scan { s with reqs := reqs' } q (if res.1.isEmpty then sk else sk ++ [p])
 
-/-- The outer loop of `acquire_lock`. Returns the new state and the grant `(channel, room)`. -/
-def peerLoop : Nat → State → State × Option (Ch × Room)
-  | 0, s => (s, none)
-  | fuel + 1, s =>
-    match s.queue with
-    | [] => (s, none)
-    | p :: q =>
-      match lookup p s.reqs with
-      | none => peerLoop fuel { s with queue := q }
-      | some req =>
-        match peerBody s p q req with
-        | (s', some g) => (s', some g)
-        | (s', none) => peerLoop fuel s'
-
-def acquire (s : State) : State × Option (Ch × Room) := peerLoop s.queue.length s
+def acquire (s : State) : State × Option (Ch × Room) := scan s s.queue []
 
 /-- `for _ in 0..n { acquire }`, collecting the grants in order. -/
 def acquireN : Nat → State → State × List (Ch × Room)
